@@ -70,7 +70,7 @@ type Cfg struct {
 	Depth       int  // nesting depth of composite constructors
 	Methods     bool // unused here (method types are declared statically elsewhere)
 	NoInvalid   bool // exclude values that cannot round-trip (invalid UTF-8, NaN)
-	MaxPerLevel int  // cap on element types carried to the next level (0 = all), taken in canonical order with a stride
+	MaxPerLevel int  // cap on element types carried from level 1 onwards (0 = all), taken in canonical order with a stride
 }
 
 func structOf(fields ...reflect.StructField) reflect.Type { return reflect.StructOf(fields) }
@@ -101,7 +101,7 @@ func Universe(c Cfg) []reflect.Type {
 	level = append(level, tAny)
 	for d := 1; d <= c.Depth; d++ {
 		elems := level
-		if c.MaxPerLevel > 0 && len(elems) > c.MaxPerLevel {
+		if d >= 2 && c.MaxPerLevel > 0 && len(elems) > c.MaxPerLevel {
 			stride := (len(elems) + c.MaxPerLevel - 1) / c.MaxPerLevel
 			var sel []reflect.Type
 			for i := (d * 3) % stride; i < len(elems); i += stride {
@@ -141,15 +141,9 @@ func isNumericLike(t reflect.Type) bool {
 	switch t.Kind() {
 	case reflect.Int, reflect.Int8, reflect.Int16, reflect.Int32, reflect.Int64, reflect.Uint, reflect.Uint8, reflect.Uint16, reflect.Uint32, reflect.Uint64, reflect.Float32, reflect.Float64:
 		return true
-	case reflect.Pointer, reflect.Slice, reflect.Array:
-		if t.Kind() == reflect.Slice && t.Elem().Kind() == reflect.Uint8 {
-			return false
-		}
-		if t.Kind() == reflect.Array && t.Elem().Kind() == reflect.Uint8 {
-			return false
-		}
-		return isNumericLike(t.Elem())
-	case reflect.Map:
+	case reflect.Pointer:
+		// the `string` tag applies to the top level of the member value only: slices, arrays, maps and structs of
+		// numbers are documented to be a runtime error, pointers are looked through
 		return isNumericLike(t.Elem())
 	}
 	return false
@@ -199,9 +193,14 @@ func domain(t reflect.Type, noInvalid bool, depth int) []reflect.Value {
 		}
 		return conv(vs, t)
 	case reflect.String:
-		vs := vals("", "a", "<&> \"\\", "é\x00\U0001F600", "A")
+		// `x\"` ends in backslash + quote: its literal ends in an escaped backslash, an escaped quote and the closing quote
+		vs := vals("", "a", "<&> \"\\", `x\"`, "é\x00\U0001F600")
 		if !noInvalid {
-			vs = append(vs, vals("a\xffb", "\xed\xa0\x80")...)
+			vs = append(vs, reflect.ValueOf("a\xffb"))
+		}
+		vs = append(vs, vals("A", `"`)...)
+		if !noInvalid {
+			vs = append(vs, reflect.ValueOf("\xed\xa0\x80"))
 		}
 		return conv(vs, t)
 	case reflect.Slice:
